@@ -207,6 +207,7 @@ def execute(prog, how, pol, seed, monitors, rrt_exp=None, fresh_scheduler=True, 
 
 COUNTER_ATTRS = [
     "n_item_hits",
+    "n_default_priority_checks",
     "n_resume_checks",
     "n_exc_resumes",
     "n_multi_fail",
